@@ -76,7 +76,7 @@ def parseMove (s : String) : Option Move :=
 
 /-- plain reader for well-formed FEN (six fields, digits 1-8, eight files per rank) -/
 def parseFen (s : String) : Option Position := do
-  let fields := (s.splitOn " ").filter (· ≠ "")
+  let fields := s.splitOn " "          -- strict: single blanks, exactly six fields
   guard (fields.length == 6)
   let rows := fields[0]!.splitOn "/"
   guard (rows.length == 8)
@@ -86,6 +86,7 @@ def parseFen (s : String) : Option Position := do
     let mut f := 0
     for ch in rows[i]!.toList do
       if ch.isDigit then
+        guard ('1' ≤ ch ∧ ch ≤ '8')
         f := f + (ch.toNat - '0'.toNat)
       else
         let pc ← pieceOfChar ch
@@ -97,7 +98,10 @@ def parseFen (s : String) : Option Position := do
   let r := fields[2]!
   guard (r == "-" || r.toList.all (fun c => c == 'K' || c == 'Q' || c == 'k' || c == 'q'))
   let ep ← (if fields[3]! == "-" then some none else (parseSq fields[3]!).map some)
+  guard (!fields[4]!.isEmpty && !fields[5]!.isEmpty)
   guard (fields[4]!.toList.all Char.isDigit && fields[5]!.toList.all Char.isDigit)
+  -- counters of any realistic size (the engine stores none of them); the loader keeps them in 32 bits
+  guard (fields[4]!.toNat! < 2 ^ 32 && fields[5]!.toNat! < 2 ^ 32)
   return { cells := cells, side := side, wks := r.contains 'K', wqs := r.contains 'Q',
            bks := r.contains 'k', bqs := r.contains 'q', ep := ep }
 
